@@ -24,7 +24,7 @@ func registerExtras() {
 	propertyRules["C01"] = append(propertyRules["C01"], ruleL1Obl, ruleRevalidate, ruleVerifyKey)
 	propertyRules["C09"] = append(propertyRules["C09"], ruleResponderWindow, ruleStaleCVRequest, ruleCVPending, ruleTypeSwitch)
 	propertyRules["C14"] = append(propertyRules["C14"], ruleDurationSrc, ruleTimestampUnit)
-	propertyRules["C10"] = append(propertyRules["C10"], ruleDurationSrc)
+	propertyRules["C10"] = append(propertyRules["C10"], ruleDurationSrc, ruleTimerExtend) // the shipped timer must not lose a pending expiry when the deadline is extended (C10r6-2)
 	propertyRules["C16"] = append(propertyRules["C16"], ruleBlockStartRef, ruleInstantSet)
 	propertyRules["C11"] = append(propertyRules["C11"], ruleDivNonzero)
 	propertyRules["C05"] = append(propertyRules["C05"], ruleDbftState)
